@@ -131,6 +131,11 @@ def r_get_pagein(ctx):
                 if status == "in_memory":
                     okk = granted and rv[0] == "shm-d" and rv[1] == 4 and len(da.fields["ongoing_reads"]) == 1 and rv[4] == "" and f_after == free
                     what = "handed out with a registered reader"
+                    if okk and (list(da.fields["ongoing_reads"].values()) != [NOW] or da.fields["retrieved_last"] != NOW):
+                        ctx.violation(rid, fi.qual, loc(fi), "reader timestamp clock",
+                                      f"{atoms}: the reader is registered with timestamp {vkey(list(da.fields['ongoing_reads'].values()))} / retrieved_last {vkey(da.fields['retrieved_last'])}, not with "
+                                      f"time.time_ns() — the eviction predicate compares reader ages against time.time_ns(), so every open read would look stale (or eternal)", row=atoms)
+                        continue
                 elif status == "on_disk" and free >= 4:
                     okk = (not granted) and rv[4] == "wait" and da.fields["status"] is sst("paged_in") and f_after == free - 4 and len(sub) == 1
                     what = "page-in issued, space reserved at once, answer wait"
@@ -438,6 +443,9 @@ def r_purge(ctx):
                                       f"({'at exit no segment may be left behind' if is_exit else 'a reader still holds it: defer' if readers else 'no reader: drop it'})", row=atoms)
                     elif readers and not is_exit and in_shm and (da.fields["delayed_purge"] is not True or not still):
                         ctx.violation(rid, fi.qual, loc(fi), "deferred purge recorded", f"{atoms}: purge during a read must mark the dataset for a delayed purge and keep it", row=atoms)
+                    elif status == "on_disk" and free != 3:
+                        ctx.violation(rid, fi.qual, loc(fi), "no space credited for an on-disk dataset",
+                                      f"{atoms}: free_space 3->{vkey(free)}; a paged-out dataset holds no shared memory (its size was credited when the page-out finished)", row=atoms)
                     elif want_unlink and (still or (not is_exit and free != 7)):
                         ctx.violation(rid, fi.qual, loc(fi), "accounting after purge", f"{atoms}: still tracked={still}, free_space 3->{vkey(free)} (expected 7)", row=atoms)
                     else:
@@ -573,3 +581,39 @@ def r_disk(ctx):
             ctx.violation("C09.R8", fi.qual, loc(fi), "segment recreated with recorded size", f"segment created with {vkey(mk[0].data['kwargs'])}")
         else:
             ctx.ok("C09.R8", loc(fi), f"page-in path ({'exception' if raised else 'clean'}): callback({cb[0] if cb else '?'})")
+
+
+def r_reader_ids(ctx):
+    """C09.R9: reader ids handed out by Manager.get are unique among the readers still open (history: open a, open b, close a, open c):
+    a colliding id would make one reader's close deregister another, so a delayed purge fires under a live reader."""
+    repo = ctx.repo
+    fi = repo.func(f"{DS}.Manager.get")
+    cb = repo.func(f"{DS}.Manager.close_callback")
+    rid = "C09.R9" if ctx.pid == "C09" else f"{ctx.pid}.READERID"
+
+    def uuid4(run, a, k, n, f):
+        run.model_u = getattr(run, "model_u", 0) + 1
+        return f"{getattr(run, 'u_base', 'u')}{run.model_u:08d}"
+    heap = {"self.datasets": {"k": dset("in_memory", name="d")}, "self.free_space": 5}
+    ids = []
+    steps = ["open", "open", "close0", "open"]
+    for i, step in enumerate(steps):
+        ip = Interp(repo, call_models={**MODELS, "uuid.uuid4": (lambda run, a, k, n, f, _i=i: f"{_i}{getattr(run, 'model_u', 0)}-aaaa-bbbb" if not setattr(run, "model_u", getattr(run, "model_u", 0) + 1) else None)})
+        if step == "open":
+            ps = ip.explore(fi, env=heap, args={"key": "k"})
+        else:
+            ps = ip.explore(cb, env=heap, args={"key": "k", "rdid": ids[0]})
+        ps = [p for p in ps if p.exit[0] == "return"]
+        if len(ps) != 1:
+            ctx.undecided(rid, loc(fi), f"history step {i} ({step}) not deterministic")
+            return
+        if step == "open":
+            ids.append(ps[0].exit[1][2])
+        heap = {k: v for k, v in ps[0].heap.items() if k.startswith("self.")}
+    d = heap["self.datasets"]["k"]
+    open_now = set(d.fields["ongoing_reads"].keys())
+    if len(open_now) != 2 or ids[2] == ids[1] or {ids[1], ids[2]} != open_now:
+        ctx.violation(rid, fi.qual, loc(fi), "reader ids unique among open readers",
+                      f"history open->{ids[0]!r}, open->{ids[1]!r}, close {ids[0]!r}, open->{ids[2]!r}: open readers recorded {sorted(open_now)} — two live readers must have two distinct ids")
+    else:
+        ctx.ok(rid, loc(fi), "a new reader never receives the id of a reader that is still open")
